@@ -316,10 +316,12 @@ class Scheduler(object):
         if self.aborting:
             return
         self.aborting = True
+        # threads that are really blocked: a thread merely parked before an operation that could proceed (it was
+        # just not scheduled before the scenario ended) is not reported
         self.blocked_at_end = [
             (r.name, r.op[0], self.roles.get(id(r.op[1])) or getattr(r.op[1], "name", None))
             for r in self.threads.values()
-            if r.state != "finished" and r.op and r.op != "aborted"
+            if r.state != "finished" and r.op and r.op != "aborted" and r.op[0] != "idle" and not self._cond(r)
         ]
         self._abort_next()
 
